@@ -58,6 +58,12 @@ pub fn accepts(d: &Dfa, s: &[u8]) -> bool {
 /// Shortest byte string accepted by exactly one of the two automata (None: same language).
 /// The bool says whether `a` accepts it.
 pub fn lang_diff(a: &Dfa, b: &Dfa) -> Option<(Vec<u8>, bool)> {
+    lang_diff_side(a, b, None)
+}
+
+/// As `lang_diff`, restricted to one side when `only` is given: `Some(true)` = a string only `a` accepts,
+/// `Some(false)` = a string only `b` accepts.
+pub fn lang_diff_side(a: &Dfa, b: &Dfa, only: Option<bool>) -> Option<(Vec<u8>, bool)> {
     let s0 = (start(a), start(b));
     let mut seen: HashMap<(StateID, StateID), usize> = HashMap::new();
     let mut nodes: Vec<((StateID, StateID), usize, u8)> = vec![(s0, usize::MAX, 0)];
@@ -68,7 +74,7 @@ pub fn lang_diff(a: &Dfa, b: &Dfa) -> Option<(Vec<u8>, bool)> {
         let (sa, sb) = nodes[i].0;
         let ma = !a.is_dead_state(sa) && a.is_match_state(a.next_eoi_state(sa));
         let mb = !b.is_dead_state(sb) && b.is_match_state(b.next_eoi_state(sb));
-        if ma != mb {
+        if ma != mb && only.map(|w| w == ma).unwrap_or(true) {
             let mut bytes = vec![];
             let mut k = i;
             while nodes[k].1 != usize::MAX {
@@ -117,6 +123,13 @@ pub fn compare_full(pat_a: &str, pat_b: &str) -> LangCmp {
         None => LangCmp::Equal,
         Some((bytes, in_a)) => LangCmp::Differ(String::from_utf8_lossy(&bytes).to_string(), in_a),
     }
+}
+
+/// A string the second pattern matches in full and the first does not (None: there is none, or a pattern does not compile).
+pub fn missing_from_first(pat_a: &str, pat_b: &str) -> Option<String> {
+    let a = build_dfa(&full(pat_a)).ok()?;
+    let b = build_dfa(&full(pat_b)).ok()?;
+    lang_diff_side(&a, &b, Some(false)).map(|(bytes, _)| String::from_utf8_lossy(&bytes).to_string())
 }
 
 pub fn lit(s: &str) -> String {
